@@ -225,6 +225,55 @@ fn op_sequences(rep: &mut Report) {
     rep.sig("ops-explored");
 }
 
+/// The URDF encoding of "no limit": a joint without a <limit> element comes out as from == to and accepts every angle,
+/// whatever limited siblings precede or follow it in the document.
+fn urdf_no_limit(rep: &mut Report, base_case: u64) {
+    let origins = ["0 0 0.45", "0.15 0 0", "0 0 0.6", "0 0 0.2", "0 0 0.64", "0 0 0.1"];
+    let axes = ["0 0 1", "0 1 0", "0 1 0", "0 0 1", "0 1 0", "0 0 1"];
+    let lims: [(f64, f64); 6] = [(-2.9, 2.9), (-1.7, 2.4), (-2.4, 1.2), (-3.0, 3.0), (-2.0, 2.0), (-1.1, 0.4)];
+    let orders: [[usize; 6]; 4] = [[0, 1, 2, 3, 4, 5], [5, 4, 3, 2, 1, 0], [3, 0, 5, 1, 4, 2], [1, 3, 5, 0, 2, 4]];
+    let mut case = base_case;
+    for mask in [0b000000u32, 0b100000, 0b001000, 0b101000, 0b010101, 0b111111, 0b000001] {
+        for order in orders {
+            case += 1;
+            let mut xml = String::from("<?xml version=\"1.0\"?>\n<robot name=\"r\">\n");
+            for &j in &order {
+                xml.push_str(&format!("<joint name=\"joint_{}\" type=\"revolute\">\n  <origin xyz=\"{}\" rpy=\"0 0 0\"/>\n  <axis xyz=\"{}\"/>\n", j + 1, origins[j], axes[j]));
+                if mask & (1 << j) == 0 {
+                    xml.push_str(&format!("  <limit lower=\"{}\" upper=\"{}\" effort=\"0\" velocity=\"1\"/>\n", lims[j].0, lims[j].1));
+                }
+                xml.push_str("</joint>\n");
+            }
+            xml.push_str("</robot>\n");
+            rep.states += 1;
+            let parsed = std::panic::catch_unwind(|| rs_opw_kinematics::urdf::from_urdf(xml.clone(), &None));
+            let Ok(Ok(u)) = parsed else {
+                rep.fail("C07/urdf-no-limit/rejected".to_string(), case, json!({"kind": "urdf", "xml": xml}), "a well-formed description was rejected or panicked".to_string());
+                continue;
+            };
+            let cons = u.constraints(0.0);
+            for j in 0..6 {
+                for probe in [0.1, -2.0, 3.1, -5.0, 100.0, 0.39, -1.09, 0.41, -1.11] {
+                    let mut q = [0.0; 6];
+                    q[j] = probe;
+                    rep.transitions += 1;
+                    let got = cons.compliant(&q);
+                    let want = if mask & (1 << j) != 0 { ArcVerdict::Inside } else { arc_member(lims[j].0, lims[j].1, probe, 1e-9) };
+                    if (want == ArcVerdict::Inside && !got) || (want == ArcVerdict::Outside && got) {
+                        rep.fail(
+                            format!("C07/urdf-no-limit/{}", if mask & (1 << j) != 0 { "unlimited-joint-restricted" } else { "limited-joint" }),
+                            case,
+                            json!({"kind": "urdf", "xml": xml}),
+                            format!("joint {} (order {:?}, joints without <limit>: mask {:06b}): compliant({probe}) = {got}, expected {want:?}", j + 1, order, mask),
+                        );
+                    }
+                }
+            }
+            rep.sig(format!("urdf-no-limit:mask{:06b}", mask));
+        }
+    }
+}
+
 /// Threshold sweep: ranges that are almost empty, almost a full turn, or written with zeros of either sign.
 fn special_ranges(rep: &mut Report, base_case: u64) {
     let ctors = [Ctor::Radians, Ctor::Degrees, Ctor::UpdateRange];
@@ -316,6 +365,7 @@ pub fn run(ctx: &Ctx) -> Report {
     });
     op_sequences(&mut rep);
     special_ranges(&mut rep, n + 10_000);
+    urdf_no_limit(&mut rep, n + 5_000_000);
     rep.traces_validated = rep.transitions;
     rep.rule = format!(
         "(from,to) on the {step}-degree lattice of [-720,720]^2 x angle on the same lattice (a third shifted by one of sqrt2*1e-3, -e*1e-3, pi*1e-2, -phi*1e-2, gamma*1e-4 rad) x \
@@ -331,6 +381,12 @@ pub fn run(ctx: &Ctx) -> Report {
 
 pub fn replay(case: &Value) -> Vec<String> {
     match case["kind"].as_str().unwrap_or("") {
+        "urdf" => {
+            // the sweep is small and deterministic: re-run it and report what concerns this document
+            let mut rep = Report::new();
+            urdf_no_limit(&mut rep, 0);
+            rep.fails.iter().filter(|f| f.case["xml"] == case["xml"]).map(|f| format!("{}: {}", f.key, f.detail)).collect()
+        }
         "decision" => {
             let others = if case["others"] == "equal" { Others::Equal } else { Others::Wide };
             match decide(
